@@ -554,6 +554,49 @@ def concentric(ctx, col):
         ("h1 = axial height of the exit point above the sphere's centre", ["h1 = np.linalg.norm(M - c1).item()", "h1 = np.linalg.norm(c1 - M).item()"], "h1"),
         ("r3 = radius of the cone at the exit height", ["r3 = np.linalg.norm(M - p).item()", "r3 = np.linalg.norm(p - M).item()"], "r3"),
     ], fixed=("find_unit_vector_on_plane", "find_sphere_line_intersection", "project_point_on_line"))
+    # --- orientation of the axis ------------------------------------------
+    # an axis taken from the frustum's own ends (c2 - c1 of the frustum) points away from the sphere on one end and towards it on the other; lengths, perpendicular
+    # vectors and projections ON the line do not care, a signed component (np.dot(x, axis), x @ axis) does
+    col.rule("R-AXISSIGN", "signed components are taken along an axis that points from the sphere's end to the other end: no dot product with a direction derived from the frustum's own "
+             "c2 - c1 (whose sense does not depend on the end the sphere sits on) unless its sign is discarded (abs / norm / square); zero expected", floor=1)
+    fixed_axis = set()
+    for _round in range(3):
+        for a_ in own_nodes(d):
+            if isinstance(a_, ast.Assign) and len(a_.targets) == 1 and isinstance(a_.targets[0], ast.Name):
+                t_ = norm_src(a_.value)
+                from_frustum = any(isinstance(b_, ast.BinOp) and isinstance(b_.op, ast.Sub) and {norm_src(b_.left), norm_src(b_.right)} == {f"{fc}.c1", f"{fc}.c2"} for b_ in ast.walk(a_.value))
+                derived = any(isinstance(n_, ast.Name) and n_.id in fixed_axis for n_ in ast.walk(a_.value)) and not any(
+                    isinstance(c_, ast.Call) and (dotted(c_.func) or "").rsplit(".", 1)[-1] in ("norm", "abs", "dot", "find_unit_vector_on_plane", "cross") for c_ in ast.walk(a_.value)
+                    if not (isinstance(c_, ast.Call) and (dotted(c_.func) or "").rsplit(".", 1)[-1] == "norm" and isinstance(a_.value, ast.BinOp) and isinstance(a_.value.op, ast.Div)
+                            and any(x is c_ for x in ast.walk(a_.value.right))))
+                if from_frustum and "norm(" not in t_.split("/")[0] or derived:
+                    fixed_axis.add(a_.targets[0].id)
+    rebound = {n_ for n_ in fixed_axis if sum(1 for a_ in own_nodes(d) if isinstance(a_, (ast.Assign, ast.AugAssign)) and any(
+        isinstance(t_, ast.Name) and t_.id == n_ for t_ in (a_.targets if isinstance(a_, ast.Assign) else [a_.target]))) > 1}
+    n_sign = 0
+    for c_ in own_nodes(d):
+        is_dot = isinstance(c_, ast.Call) and (dotted(c_.func) or "").rsplit(".", 1)[-1] in ("dot", "inner", "vdot")
+        is_mat = isinstance(c_, ast.BinOp) and isinstance(c_.op, ast.MatMult)
+        if not (is_dot or is_mat):
+            continue
+        ops = (list(c_.args) + ([c_.func.value] if isinstance(c_.func, ast.Attribute) and not (dotted(c_.func) or "").startswith(("np.", "numpy.")) else [])) if is_dot else [c_.left, c_.right]
+        hit = [o_ for o_ in ops if isinstance(o_, ast.Name) and o_.id in fixed_axis]
+        if not hit or len([o_ for o_ in ops if isinstance(o_, ast.Name) and o_.id in fixed_axis]) == len(ops):
+            continue   # axis . axis has no sign problem
+        # is the sign discarded?
+        wrapped = any(isinstance(w_, ast.Call) and (dotted(w_.func) or "").rsplit(".", 1)[-1] in ("abs", "fabs", "absolute", "square") and any(x is c_ for x in ast.walk(w_)) for w_ in own_nodes(d)) \
+            or any(isinstance(w_, ast.BinOp) and isinstance(w_.op, ast.Pow) and any(x is c_ for x in ast.walk(w_.left)) for w_ in own_nodes(d))
+        if wrapped:
+            continue
+        n_sign += 1
+        if hit[0].id in rebound:
+            col.unresolved("R-AXISSIGN", qual, d.loc(c_), "signed components are measured away from the sphere's end", f"`{hit[0].id}` is bound more than once", stmt="axis-sign")
+        else:
+            col.bad("R-AXISSIGN", qual, d.loc(c_), "signed components are measured away from the sphere's end",
+                    f"`{norm_src(c_)[:70]}` takes a signed component along `{hit[0].id}`, which is derived from `{fc}.c2 - {fc}.c1`: with the sphere on the second end that axis points back "
+                    f"into the sphere, the height comes out negative and the cap / frustum terms are evaluated at a wrong height (a child thicker than its parent in a tree)", stmt="axis-sign", definite=True)
+    if not n_sign:
+        col.ok("R-AXISSIGN", qual, d.loc(), "signed components are measured away from the sphere's end", f"axes fixed by the frustum's own ends: {sorted(fixed_axis) or 'none'}; no signed use", stmt="axis-sign")
     # --- cell table --------------------------------------------------------
     # the statements after the role bindings, with the geometric ones replaced by symbols
     skip_prefix = ("h = ", "c1, r1 = ", "up = ", "v = ", "intersections = ", "t, p = ", "M = ", "h1 = ", "r3 = ")
